@@ -389,6 +389,44 @@ def flat_rule(run, quick):
     run.extra["flat_calls_checked_against_the_rule"] = len(coq_cases)
 
 
+def if_rule(run, quick):
+    """{{#if: cond | a | b}} with plain arguments against Model.FlatCall.if_result (c04_if_with_plain_arguments)."""
+    rng = run.rng
+    CONDS = ["", " ", "x", " x ", "\n", "\n y \n", "0", "a=b", "  \t"]
+    VALS = ["", "a", " a ", "\na\n", "*li", " #n", ":d", ";t", "{|", "x=y", "b c", "\n*z\n", " "]
+    cases = []
+    for _ in range(250 if quick else 4000):
+        cond = rng.choice(CONDS)
+        more = [rng.choice(VALS) for _ in range(rng.randint(0, 3))]
+        cases.append({"lib": [], "page": "{{#if:" + "|".join([cond] + more) + "}}", "opts": {}, "title": "Tt", "_cond": cond, "_more": more})
+    res = lib.run_impl("expandlib", [{k: c[k] for k in ("lib", "page", "opts", "title")} for c in cases], shards=lib.NCPU)
+    coq_cases, idx = [], []
+    for i, (c, r) in enumerate(zip(cases, res)):
+        run.count({"if": c["page"]}, len(c["_more"]) >= 2, "if-plain")
+        if r.get("outcome") != "ok":
+            run.property_failure("if:%s:%s" % (r.get("outcome"), r.get("exc", "")), "expand() did not return normally: %r" % (r,), c["page"])
+            continue
+        pa = r["page_ast"]
+        if len(pa) != 1 or isinstance(pa[0], int) or pa[0][0] != "T" or any(not isinstance(y, int) for a in pa[0][1] for y in a):
+            run.correspondence_break("a generated #if call was not read as one call with plain arguments", c["page"], page_ast=pa)
+            continue
+        first = pa[0][1][0]
+        if first[:4] != [35, 105, 102, 58]:
+            run.correspondence_break("a generated #if call does not start with '#if:'", c["page"], page_ast=pa)
+            continue
+        coq_cases.append("(%s, %s, %s)" % (G.coq_enc(first[4:]), clist(pa[0][1][1:], G.coq_enc, "enc"), cstr(r["out"])))
+        idx.append(i)
+    bad, errs = lib.coq_eval_failing("c04i", IMPORTS + ["Model.FlatCall"], "enc * list enc * str", coq_cases,
+                                     "fun '(c, m, o) => str_eqb (codes (if_result c m)) o", chunk=350)
+    for e in errs:
+        run.correspondence_break("model evaluation failed (#if rule)", None, error=e)
+    for b in bad:
+        c = cases[idx[b]]
+        run.property_failure("c04:if-differs-from-its-rule", "expand(%r) gave %r; Model.FlatCall.if_result says otherwise"
+                             % (c["page"], res[idx[b]]["out"]), c["page"])
+    run.extra["if_calls_checked_against_the_rule"] = len(coq_cases)
+
+
 def run(run):
     run.rule = ("acyclic template libraries (<=5 templates, bodies from the expansion grammar: text atoms with interior/"
                 "leading/trailing blanks and newlines, {{{n}}}, {{{n|default}}}, positional/named/numeric-named/duplicate "
@@ -419,6 +457,7 @@ def run(run):
     cases = [make_case(run.rng) for _ in range(n)]
     run_cases(run, cases, "acyclic")
     flat_rule(run, run.tier == "quick")
+    if_rule(run, run.tier == "quick")
     run.extra["traces_validated_against_impl"] = run.evaluations
 
 
